@@ -46,6 +46,35 @@ ResolveTree(t, segs) ==
         ELSE CHOOSE x \in {StepWalk(t, w, segs[i], i) : w \in {W[i - 1]}} : TRUE
   IN W[Len(segs)]
 
+(* ---- USING what a resolution returned.  "Returns the named entry" is a statement about the value
+   the caller gets, and that value is used AFTER the resolver has returned (the caller's context is
+   still live): a returned directory must list / look up exactly the entries of the named
+   directory -- whatever its physical layout, also when the entries live in child shard blocks
+   that are only read at that moment --, a returned file must yield the bytes of the named file.
+   NoEntry = "no entry of that name".  A directory's filler entries are summarized as
+   <<count, lowest, highest filler number>> (all linking to FillerFile). *)
+NoEntry == -2
+IsDirNode(t, d) == d >= 0 /\ KindOf(t, d) \in {"b", "h"}
+Look(t, d, nm) == IF ~IsDirNode(t, d) THEN NoEntry
+                  ELSE IF HasChild(t, d, nm) THEN ChildOf(t, d, nm)
+                  ELSE IF IsFillerOf(t, d, nm) THEN FillerFile ELSE NoEntry
+Named(t, d) == {<<t.nodes[i].nm, i>> : i \in Children(t, d)}
+FillOf(t, d) == IF FilledDir(t, d) /\ t.fill > 0 THEN <<t.fill, 1, t.fill>> ELSE <<0, 0, 0>>
+\* what node d gives when used: its kind as the caller sees it (directory / file), the named entries
+\* and filler summary it lists, the answer to a lookup of every name in `probe`, and (file) whose bytes
+Use(t, d, probe) ==
+  IF IsDirNode(t, d)
+  THEN [kind |-> "dir", ents |-> Named(t, d), fill |-> FillOf(t, d),
+        look |-> {<<nm, Look(t, d, nm)>> : nm \in probe}, content |-> d]
+  ELSE [kind |-> "file", ents |-> {}, fill |-> <<0, 0, 0>>, look |-> {}, content |-> d]
+\* the nodes a walk passes, in order (root first); for an "ok" walk one per segment + 1
+Via(t, segs) ==
+  LET V[i \in 0..Len(segs)] ==
+        IF i = 0 THEN <<0>>
+        ELSE CHOOSE x \in {IF Len(v) = i /\ Look(t, v[i], segs[i]) # NoEntry THEN Append(v, Look(t, v[i], segs[i])) ELSE v
+                           : v \in {V[i - 1]}} : TRUE
+  IN V[Len(segs)]
+
 (* ---- as-built deviation conditions (open findings; the ideal above does not depend on them) *)
 \* nodes whose block a resolver API has to DECODE: ResolveToLastNode returns the last link without
 \* loading its target; ResolvePath loads the target as well
